@@ -111,6 +111,16 @@ def track(x):
     return x
 
 
+_SAME = []
+
+
+def same(results):
+    """results of calls made with EQUAL arguments (equal by value, held in different buffers): they must be equal"""
+    rs = [canon(x) for x in results]
+    _SAME.append(all(x == rs[0] for x in rs))
+    return results
+
+
 _SHARED = {}
 _BUILDER_NAMES = [None]
 
@@ -218,6 +228,24 @@ def build():
         ds = [R.digest() for _ in range(r.choice([1, 1, 3]))]
         return ds, [a, b]
 
+    def crc_custom_tail(r):
+        """the byte-reversing switch on a message whose length is no whole number of octets, held in a buffer whose pad bits are not
+        zero (a longer bitarray cut down with del - what slicing a received frame leaves behind): the checksum is a function of the
+        message's bits, the same for equal messages whatever their buffers held before"""
+        from bitarray import bitarray
+        from okdmr.dmrlib.etsi.crc.crc import BitCrcCalculator, BitCrcConfiguration
+        w = r.choice([7, 8, 9, 16, 32])
+        cfg = BitCrcConfiguration(polynomial=r.getrandbits(w) | 1, width_bits=w, reverse_input_bytes=True, reverse_output_bytes=bool(r.getrandbits(1)))
+        n = r.choice([1, 3, 11, 13, 28, 75])
+        msg = [r.getrandbits(1) for _ in range(n)]
+        out = []
+        for fillbit in (0, 1, 1, 0):
+            a = bitarray(msg + [fillbit] * (8 - n % 8))
+            del a[n:]
+            out.append(BitCrcCalculator(cfg, table_based=bool(r.getrandbits(1))).calculate_checksum(track(a)))
+        return same(out), []
+
+    add("crc_custom_tail", crc_custom_tail, 8)
     add("crc_register", crc_register, 16)
     add("crc_custom", crc_custom, 16)
     add("crc8", crc8, 4)
@@ -1005,9 +1033,10 @@ def run_signature(S, name):
     r = rng_for(key)
     _MODE["mutable"] = name.endswith("~m")
     _TRACK.clear()
+    _SAME.clear()
     try:
         res, _ = fn(r)
     except Exception as ex:  # noqa: an unexpected exception class is a result too
         res = ex
     intact = True if in_place else all(canon(x) == c for x, c in _TRACK)
-    return digest(res), intact, struct(res)
+    return digest(res), intact, struct(res), all(_SAME)
